@@ -123,6 +123,7 @@ type Result struct {
 	Panics        int               `json:"impl_panics"`
 	ViolClauses   map[string]int    `json:"violation_clauses"`
 	DisagreeOps   map[string]int    `json:"disagreement_ops"`
+	DisagreeProp  map[string]int    `json:"disagree_by_prop,omitempty"`
 	WallS         float64           `json:"wall_s"`
 	Notes         []string          `json:"notes,omitempty"`
 	Extra         map[string]string `json:"extra,omitempty"`
@@ -139,6 +140,9 @@ type Component struct {
 	Scope func(tier string) string
 	// Exhaustive says whether the quick-tier space includes a completely enumerated finite scope.
 	Exhaustive bool
+	// Affects (optional) projects a disagreement onto the properties whose theorems depend on the differing part of
+	// the output; nil = every property that lists the component.
+	Affects func(cs Case, impl, model string) []string
 }
 
 var components = map[string]*Component{}
@@ -390,6 +394,14 @@ func RunComponent(c *Component, tier string, seed uint64, driver string, corpus 
 			if model[k] != impl[i].Out {
 				res.NDisagree++
 				res.DisagreeOps[cases[i].Op]++
+				if c.Affects != nil {
+					if res.DisagreeProp == nil {
+						res.DisagreeProp = map[string]int{}
+					}
+					for _, pid := range c.Affects(cases[i], impl[i].Out, model[k]) {
+						res.DisagreeProp[pid]++
+					}
+				}
 				if res.DisagreeOps[cases[i].Op] <= 6 && len(res.Disagreements) < maxKept {
 					res.Disagreements = append(res.Disagreements, Disagreement{Component: c.Name, Case: cases[i], Impl: impl[i].Out, Model: model[k]})
 				}
